@@ -149,10 +149,13 @@ class Token(str):
     ) -> list[Token]:
 
         l_ = str.split(self, sep, maxsplit)
-        pos = self.pos
+        offset = 0
         for i, s in enumerate(l_):
-            l_[i] = Token(s, pos, self.source, self.filename)
-            pos += len(s)
+            if sep is None:
+                # skip the whitespace run in front of this part
+                offset = str.find(self, s, offset)
+            l_[i] = Token(s, self.pos + offset, self.source, self.filename)
+            offset += len(s) + (len(sep) if sep is not None else 0)
         return cast('list[Token]', l_)
 
     def strip(self, chars: str | None = None, /) -> Token:
